@@ -78,6 +78,12 @@ theorem mem_sortedKeys (p : Preimage) (k : Int) : k ∈ sortedKeys p ↔ k ∈ k
 
 /-! ## the window loop -/
 
+/-- what `analyse` hands to `gapRanges`: the preimage of a window that ran to completion -/
+def completedOf (st : WinState) (fin : WinEnd) : Option Preimage :=
+  match fin with
+  | .completed => some st.pre
+  | _ => none
+
 /-- the diagnostic the window owes for index `i`, if any: its true outcome -/
 def badMsg (n : Nat) (e : Expr) (i : Nat) : Option (List Char) :=
   match evalAt 32 i e with
